@@ -206,3 +206,203 @@ func c10cmp(req, impl, model string) bool {
 	note("composed:matching and merged document agree")
 	return true
 }
+
+// ---- role lines outside FAM records (Props/C10Roles.lean) -------------------------------------------
+//
+// output_redecodes needs every HUSB / WIFE / CHIL line of the inputs below a FAM record of its own
+// (recordsBelowFam). roles_counterexample shows the condition cannot be dropped, output_redecodes_iff
+// says exactly when the merged document decodes again: when `rolesOKF false` holds of its records in
+// the order the merge emits them — the `legal=` bit of the `mergedocs` answer. This stream leaves the
+// property's domain on purpose (documents the decoder accepts in which a role line sits inside an INDI
+// or NOTE record after some FAM record): the real merge, encoder and decoder are run and the outcome
+// (does the merged text decode to itself) is compared with that bit; inside the domain the direct
+// oracle still demands a document that decodes again.
+
+func c10BelowFam(ns gedcom.Nodes) bool {
+	var walk func(n gedcom.Node, above bool) bool
+	walk = func(n gedcom.Node, above bool) bool {
+		t := n.Tag().Tag()
+		if (t == "HUSB" || t == "WIFE" || t == "CHIL") && !above {
+			return false
+		}
+		for _, k := range n.Nodes() {
+			if !walk(k, above || t == "FAM") {
+				return false
+			}
+		}
+		return true
+	}
+	for _, n := range ns {
+		if !walk(n, false) {
+			return false
+		}
+	}
+	return true
+}
+
+func c10RolesCase(c *Ctx, lt, rt, shape, via string) {
+	input := map[string]interface{}{"left": lt, "right": rt, "shape": shape, "via": via}
+	ld, err1 := gedcom.NewDocumentFromString(lt)
+	rd, err2 := gedcom.NewDocumentFromString(rt)
+	if err1 != nil || err2 != nil {
+		c.Count("roles:input rejected by the decoder (role line before any FAM)")
+		return
+	}
+	c.Eval()
+	lForest, rForest := encForest(abstractNodes(ld.Nodes())), encForest(abstractNodes(rd.Nodes()))
+	guard := c10BelowFam(ld.Nodes()) && c10BelowFam(rd.Nodes())
+	pos := func(doc *gedcom.Document) map[string]int {
+		m := map[string]int{}
+		n := 0
+		for _, rec := range doc.Nodes() {
+			if rec.Tag().Tag() != "INDI" {
+				continue
+			}
+			for _, k := range rec.Nodes() {
+				if k.Tag().Tag() == "_MARK" {
+					m[k.Value()] = n
+				}
+			}
+			n++
+		}
+		return m
+	}
+	lp, rp := pos(ld), pos(rd)
+	out, err := c10Merge(ld, rd, via, 0)
+	obs := ""
+	var req strings.Builder
+	if err != nil {
+		// the model has the same outcomes; the matching cannot be read off a document that does not exist:
+		// Compare on the same individuals supplies it (sorted: the outcome does not depend on the order)
+		obs = "error"
+		if strings.HasPrefix(err.Error(), "panic:") {
+			obs = "panic"
+		}
+		c.Count("roles:merge " + obs)
+		c.Oracle("", "MergeDocumentsAndIndividuals fails on two documents the decoder accepts (role lines outside FAM records)", input, err.Error(), "a merged document")
+		return
+	}
+	var ms []string
+	for _, rec := range out.Nodes() {
+		if rec.Tag().Tag() != "INDI" {
+			continue
+		}
+		a, b := -1, -1
+		// an unmatched individual is passed through by reference
+		for i, x := range ld.Individuals() {
+			if gedcom.Node(x) == rec {
+				a = i
+			}
+		}
+		for j, x := range rd.Individuals() {
+			if gedcom.Node(x) == rec {
+				b = j
+			}
+		}
+		for _, k := range rec.Nodes() {
+			if k.Tag().Tag() == "_MARK" {
+				if i, ok := lp[k.Value()]; ok {
+					a = i
+				} else if j, ok := rp[k.Value()]; ok {
+					b = j
+				}
+			}
+		}
+		switch {
+		case a >= 0 && b >= 0:
+			ms = append(ms, fmt.Sprintf("B %d %d", a, b))
+		case a >= 0:
+			ms = append(ms, fmt.Sprintf("L %d", a))
+		case b >= 0:
+			ms = append(ms, fmt.Sprintf("R %d", b))
+		default:
+			c.Oracle("", "an output individual comes from nowhere", input, rec.String(), "every output individual stems from an input individual")
+			return
+		}
+	}
+	text := out.String()
+	re, rerr := gedcom.NewDocumentFromString(text)
+	redecodes := rerr == nil && re.String() == text
+	fmt.Fprintf(&req, "mergedocs %d", len(ms))
+	for _, m := range ms {
+		req.WriteString(" " + m)
+	}
+	req.WriteString(" " + lForest + " " + rForest)
+	obs = "ok legal=" + bit(redecodes) + " inputs=" + bit(guard) + " " + encForest(abstractNodes(out.Nodes()))
+	c.Tie(req.String(), obs)
+	c.Count("roles:shape=" + shape)
+	c.Count(fmt.Sprintf("roles:inputs-below-fam=%v redecodes=%v", guard, redecodes))
+	if guard && !redecodes {
+		c.Oracle("", "the merged document does not decode again", input, fmt.Sprint(rerr), "decodes")
+	}
+	c.Nontrivial(fmt.Sprintf("roles|%s|%v|%v|%d", shape, guard, redecodes, len(ms)))
+}
+
+func c10RolesDoc(r *Rand, side string, n int, famFirst bool, strays []string) string {
+	var sb strings.Builder
+	fam := "0 @F1@ FAM\n1 HUSB @I0@\n"
+	if n > 1 {
+		fam += "1 CHIL @I1@\n"
+	}
+	if famFirst {
+		sb.WriteString(fam)
+	}
+	for k := 0; k < n; k++ {
+		fmt.Fprintf(&sb, "0 @I%d@ INDI\n1 NAME Person%d /Family%d/\n1 BIRT\n2 DATE %d Jan %d\n1 _MARK %s%d\n", k, k, k, k+1, 1850+7*k, side, k)
+		for _, s := range strays {
+			if strings.HasPrefix(s, fmt.Sprintf("%d:", k)) {
+				sb.WriteString(s[strings.Index(s, ":")+1:])
+			}
+		}
+	}
+	for _, s := range strays {
+		if strings.HasPrefix(s, "top:") {
+			sb.WriteString(s[4:])
+		}
+	}
+	if !famFirst {
+		sb.WriteString(fam)
+	}
+	return sb.String()
+}
+
+func c10Roles(c *Ctx) {
+	// the pinned witness of roles_counterexample, through the library and through q
+	for _, via := range []string{"library", "query"} {
+		c10RolesCase(c, "0 @F1@ FAM\n0 @I1@ INDI\n1 CHIL @I2@\n", "", "witness", via)
+	}
+	r := c.R
+	kinds := []string{"1 CHIL @I0@\n", "1 ASSO @I0@\n2 HUSB @I0@\n", "1 FAM\n2 WIFE @I0@\n", "1 WIFE @I1@\n2 NOTE x\n"}
+	n := c.N(60, 600)
+	for i := 0; i < n; i++ {
+		mk := func(side string) (string, string) {
+			np := 1 + r.Intn(3)
+			var strays []string
+			shape := "none"
+			switch r.Intn(5) {
+			case 0:
+			case 1, 2:
+				k := r.Intn(len(kinds))
+				strays = append(strays, fmt.Sprintf("%d:%s", r.Intn(np), kinds[k]))
+				shape = []string{"indi-chil", "indi-nested-husb", "indi-below-nested-fam", "indi-wife"}[k]
+			case 3:
+				strays = append(strays, "top:0 @N1@ NOTE a note\n1 CHIL @I0@\n")
+				shape = "note-record-chil"
+			case 4:
+				strays = append(strays, fmt.Sprintf("%d:%s", r.Intn(np), kinds[r.Intn(len(kinds))]), "top:0 @N1@ NOTE a note\n1 HUSB @I0@\n")
+				shape = "indi+note"
+			}
+			return c10RolesDoc(r, side, np, !r.Chance(1, 8), strays), shape
+		}
+		lt, ls := mk("L")
+		rt, rs := mk("R")
+		if r.Chance(1, 6) {
+			rt, rs = "", "empty"
+		}
+		via := "library"
+		if i%3 == 1 {
+			via = "query"
+		}
+		c10RolesCase(c, lt, rt, ls+"/"+rs, via)
+	}
+}
